@@ -280,6 +280,7 @@ type Ctl struct {
 	C     *controller.DefaultFanController
 	Curve *SchedCurve
 	Loop  *recLoop
+	Pers  persistence.Persistence
 	wlogN int
 	raced bool
 	wfail bool
@@ -317,7 +318,7 @@ func NewCtl(rec *Recorder, spec FanSpec, pwm0, mode0 int, avg0 float64) *Ctl {
 	}
 	c.VerifSetPwmMap(mm)
 	fan.SetRpmAvg(avg0)
-	ctl := &Ctl{Env: env, Rec: rec, Spec: spec, Fan: fan, C: c, Curve: curve, Loop: loop}
+	ctl := &Ctl{Env: env, Rec: rec, Spec: spec, Fan: fan, C: c, Curve: curve, Loop: loop, Pers: pers}
 	// the Prometheus collectors of this fan and controller, as fan2go registers them
 	ctl.reg_ = prometheus.NewRegistry()
 	ctl.reg_.MustRegister(statistics.NewControllerCollector([]controller.FanController{fc}), statistics.NewFanCollector([]fans.Fan{fan}))
